@@ -56,7 +56,7 @@ def replay_failure(modname, f, pid):
     path = os.path.join(VERIF, 'replays', '%s_%s.json' % (pid, h))
     json.dump(body, open(path, 'w'), indent=1, sort_keys=True)
     mod = importlib.import_module(modname)
-    if hasattr(mod, 'replay'):
+    if hasattr(mod, 'replay') and f['func'].startswith('c_'):
         rc, out = mod.replay(body)
     else:
         p = subprocess.run([REPLAY_PY, os.path.join(HERE, 'replay.py'), path], capture_output=True, text=True,
@@ -140,7 +140,7 @@ def main(argv=None):
         harness_shapes=len(ok_results), reachability_witnesses=tot('witnesses'),
         solver_queries=tot('fork_queries') + tot('proof_queries'),
         solver_s=round(tot('fork_solver_s') + tot('proof_solver_s'), 2),
-        traces_validated_against_impl=getattr(mod, 'VALIDATED', lambda: 0)(),
+        traces_validated_against_impl=sum(int((r.get('extra') or {}).get('translator_validation_runs', 0)) for r in ok_results) + len(violations) + len(known_hits) + len(nonrepro),
         counterexamples_replayed=len(violations) + len(known_hits) + len(nonrepro),
         samples=samples or [dict(note='no sample')],
         functions_encoded=meta.get('functions', []), bounds=meta.get('bounds', {}).get(tier, meta.get('bounds', {})),
